@@ -226,6 +226,11 @@ TB_EXPECT = {'TB_INS': 'Ins', 'TB_DEL': 'Del', 'TB_MATCH': 'Match', 'TB_SUBST': 
              'TB_XCLIP_SUFFIX': 'Xclip', 'TB_YCLIP_PREFIX': 'Yclip', 'TB_YCLIP_SUFFIX': 'Yclip'}
 
 
+def TB1_KEEP(path):
+    return path.rsplit('::', 1)[-1] in ('custom', 'compute_alignment', 'global', 'semiglobal', 'local', 'new', 'init', 'set', 'get',
+                                        'create', 'create_with_prehash', 'create_with_matches', 'create_from_match_path')
+
+
 def tb1(facts, rep, rule, body_path):
     """operation labelling: move codes vs emitted operations, Match/Subst decided by symbol equality"""
     from .mirlib import call_info, strip, walk
@@ -238,6 +243,9 @@ def tb1(facts, rep, rule, body_path):
     if b is None:
         rep.missing(rule, body_path, 'not found')
         return
+    # a traceback loop moved into a private helper is analysed in place
+    from . import inline
+    b = inline.inlined(facts, b, TB1_KEEP)
     rep.analysed_body(b)
     codes = {}
     for nm in list(TB_EXPECT) + ['TB_START']:
